@@ -451,6 +451,8 @@ public:
   static bool startsWith(const char* in, const String& str) {return compare(in, str.data->str, str.data->len) == 0;}
 
 private:
+  friend class Unicode;
+
   struct Data
   {
     const char* str;
